@@ -35,6 +35,29 @@ theorem guard_false (t : Table) (req : Parser) (hp : PathOk t req) :
   · have : t.any (fun p => !p.isEmpty) = false := by simpa using ht
     rw [this]; rfl
 
+/-- `emit_request_complete()` returns normally: events are off, or the request has a Host field
+    and its Host value, path, method and header names/values decode as UTF-8 -/
+def EmitOk (events : Bool) (req : Parser) : Prop := emitRequestComplete events req = none
+
+theorem emitOk_of_events_off (req : Parser) : EmitOk false req := by
+  simp [EmitOk, emitRequestComplete]
+
+theorem onRequestCompleteEv_eq (cfg : Cfg) (ev : Bool) (m : Nat → Bool) (pick : Nat → Nat) (connectOk : Bool)
+    (t : Table) (req : Parser) (s : St) (h : EmitOk ev req) :
+    onRequestCompleteEv cfg ev m pick connectOk t req s = onRequestComplete cfg m pick connectOk t req s := by
+  unfold onRequestCompleteEv; rw [h]
+
+/-- **C12 events are a no-op for forwarding.**  `emit_request_complete()` publishes a copy and hands
+the unchanged request on: whenever it does not raise, `--enable-events` changes nothing about what
+is connected, forwarded, queued or torn down (the correspondence checks that the implementation
+indeed leaves the request untouched). -/
+theorem C12_events_noop (cfg : Cfg) (m : Nat → Bool) (pick : Nat → Nat) (connectOk : Bool) (t : Table)
+    (req : Parser) (s : St) (h : EmitOk true req) :
+    onRequestCompleteEv cfg true m pick connectOk t req s =
+      onRequestCompleteEv cfg false m pick connectOk t req s := by
+  rw [onRequestCompleteEv_eq cfg true m pick connectOk t req s h,
+      onRequestCompleteEv_eq cfg false m pick connectOk t req s (emitOk_of_events_off req)]
+
 /-- a request as the web server plugin sees it: origin-form target, so `path` is set -/
 def WebReq (t : Table) (req : Parser) : Prop := req.path.isSome = true ∧ PathOk t req
 
@@ -43,15 +66,16 @@ client is queued exactly the generated `NOT_FOUND_RESPONSE_PKT`, the
 connection is torn down, nothing is connected or wrapped and no upstream
 exists — whatever the table, the `random.choice` outcomes, the connect outcome
 and the request are. -/
-theorem C12_no_route_404 (cfg : Cfg) (m : Nat → Bool) (pick : Nat → Nat) (connectOk : Bool) (t : Table)
-    (req : Parser) (s : St) (hp : PathOk t req) (hno : anyMatch m t = false) :
-    onRequestComplete cfg m pick connectOk t req s =
+theorem C12_no_route_404 (cfg : Cfg) (ev : Bool) (m : Nat → Bool) (pick : Nat → Nat) (connectOk : Bool) (t : Table)
+    (req : Parser) (s : St) (hev : EmitOk ev req) (hp : PathOk t req) (hno : anyMatch m t = false) :
+    onRequestCompleteEv cfg ev m pick connectOk t req s =
       ⟨{ s with client := s.client.queue cfg.notFound }, true, none⟩ ∧
-    (onRequestComplete cfg m pick connectOk t req s).st.connects = s.connects ∧
-    (onRequestComplete cfg m pick connectOk t req s).st.upstream = s.upstream ∧
+    (onRequestCompleteEv cfg ev m pick connectOk t req s).st.connects = s.connects ∧
+    (onRequestCompleteEv cfg ev m pick connectOk t req s).st.upstream = s.upstream ∧
     ({} : Cfg).notFound = Px.Gen.pkt_NOT_FOUND_RESPONSE_PKT := by
-  have h : onRequestComplete cfg m pick connectOk t req s =
+  have h : onRequestCompleteEv cfg ev m pick connectOk t req s =
       ⟨{ s with client := s.client.queue cfg.notFound }, true, none⟩ := by
+    rw [onRequestCompleteEv_eq _ _ _ _ _ _ _ _ hev]
     unfold onRequestComplete
     simp only [guard_false t req hp, Bool.false_eq_true, if_false, hno]
   exact ⟨h, by rw [h], by rw [h], rfl⟩
@@ -121,15 +145,15 @@ client's method and version, the header dict of `C12_host_rewrite` /
 `C12_headers_preserved` and the client's (re-chunked if chunked) body; the
 connection is not torn down; the client has been queued only the literal
 responses of literal hits. -/
-theorem C12_target (cfg : Cfg) (m : Nat → Bool) (pick : Nat → Nat) (t : Table) (req : Parser) (s : St)
+theorem C12_target (cfg : Cfg) (ev : Bool) (m : Nat → Bool) (pick : Nat → Nat) (t : Table) (req : Parser) (s : St)
     (u : Url) (h mth ver : Bytes)
-    (hweb : WebReq t req) (hany : anyMatch m t = true)
+    (hev : EmitOk ev req) (hweb : WebReq t req) (hany : anyMatch m t = true)
     (hc : Clean cfg pick (hits m 0 t))
     (hw : ((hits m 0 t).filterMap (urlOf cfg pick)).getLast? = some u)
     (hh : HostOk u h) (hb : Buildable req mth ver) (hn : cfg.bufSize ≠ 0) :
     ∃ body, bodyOrChunks cfg.bufSize req = .ok body ∧
       (req.isChunked = false → body = req.body) ∧
-      onRequestComplete cfg m pick true t req s =
+      onRequestCompleteEv cfg ev m pick true t req s =
         ⟨{ s with
             choice := some u,
             client := { s.client with buffer := s.client.buffer ++ (hits m 0 t).filterMap (litOf cfg pick) },
@@ -149,6 +173,7 @@ theorem C12_target (cfg : Cfg) (m : Nat → Bool) (pick : Nat → Nat) (t : Tabl
     cases hl : (hits m 0 t).filterMap (urlOf cfg pick) with
     | nil => rw [hl] at hw; simp at hw
     | cons _ _ => rfl
+  rw [onRequestCompleteEv_eq _ _ _ _ _ _ _ _ hev]
   unfold onRequestComplete
   have hguard := guard_false t req hweb.2
   simp only [hguard, Bool.false_eq_true, if_false, hany, if_true]
@@ -325,11 +350,11 @@ theorem C12_relay_stops (pre post : List UpEv) (e : UpEv) (he : e.terminal = tru
 URL (all matching first routes are dynamic routes answering with a literal
 response), exactly those literal responses are queued to the client, in plugin
 order, nothing is connected, no upstream exists and the connection stays up. -/
-theorem C12_dynamic_literal (cfg : Cfg) (m : Nat → Bool) (pick : Nat → Nat) (connectOk : Bool) (t : Table)
-    (req : Parser) (s : St) (hweb : WebReq t req) (hany : anyMatch m t = true)
+theorem C12_dynamic_literal (cfg : Cfg) (ev : Bool) (m : Nat → Bool) (pick : Nat → Nat) (connectOk : Bool) (t : Table)
+    (req : Parser) (s : St) (hev : EmitOk ev req) (hweb : WebReq t req) (hany : anyMatch m t = true)
     (hc : Clean cfg pick (hits m 0 t))
     (hnone : (hits m 0 t).filterMap (urlOf cfg pick) = []) :
-    onRequestComplete cfg m pick connectOk t req s =
+    onRequestCompleteEv cfg ev m pick connectOk t req s =
       ⟨{ s with client := { s.client with buffer := s.client.buffer ++ (hits m 0 t).filterMap (litOf cfg pick) } },
        false, none⟩ ∧
     (hits m 0 t).filterMap (litOf cfg pick) ≠ [] := by
@@ -337,7 +362,8 @@ theorem C12_dynamic_literal (cfg : Cfg) (m : Nat → Bool) (pick : Nat → Nat) 
     have := hweb.1; cases hq : req.path <;> simp_all
   have hguard := guard_false t req hweb.2
   constructor
-  · unfold onRequestComplete
+  · rw [onRequestCompleteEv_eq _ _ _ _ _ _ _ _ hev]
+    unfold onRequestComplete
     simp only [hguard, Bool.false_eq_true, if_false, hany, if_true]
     unfold handleRequest
     simp only [hpath, Bool.false_and, Bool.false_eq_true, if_false]
@@ -429,6 +455,9 @@ example : portOf {} exUrl = 8443 ∧ hostArg { rewriteHost := true } exUrl (b "h
 example : anyMatch (fun i => i == 0) exTable = true ∧ anyMatch (fun _ => false) exTable = false := by
   decide +kernel
 example : PathOk exTable exReq := by intro _; decide +kernel
+example : emitRequestComplete true { exReq with port := some 80 } = none := by decide +kernel
+example : emitRequestComplete true { exReq with port := some 80, headers := none } = some .keyError := by
+  decide +kernel
 /-- the literal-only situation of `C12_dynamic_literal` -/
 example : (hits (fun i => i == 1) 0 exTable).filterMap (urlOf {} (fun _ => 0)) = [] ∧
     (hits (fun i => i == 1) 0 exTable).filterMap (litOf {} (fun _ => 0)) = [b "HTTP/1.1 204 No Content\r\n\r\n"] := by
@@ -436,11 +465,11 @@ example : (hits (fun i => i == 1) 0 exTable).filterMap (urlOf {} (fun _ => 0)) =
 /-- the whole pipeline on the example: one connect to (httpbingo.org, 8443), TLS requested,
     `GET / HTTP/1.1` with the Host rewritten, other field kept -/
 example :
-    (onRequestComplete { rewriteHost := true } (fun i => i == 0) (fun _ => 1) true exTable exReq {}).st.connects
+    (onRequestCompleteEv { rewriteHost := true } false (fun i => i == 0) (fun _ => 1) true exTable exReq {}).st.connects
       = [(b "httpbingo.org", 8443)] ∧
-    (onRequestComplete { rewriteHost := true } (fun i => i == 0) (fun _ => 1) true exTable exReq {}).st.upstream
+    (onRequestCompleteEv { rewriteHost := true } false (fun i => i == 0) (fun _ => 1) true exTable exReq {}).st.upstream
       = some ⟨[b "GET / HTTP/1.1\r\nHost: httpbingo.org:8443\r\nX-A: 1\r\n\r\n"], false⟩ ∧
-    (onRequestComplete { rewriteHost := true } (fun i => i == 0) (fun _ => 1) true exTable exReq {}).st.wraps
+    (onRequestCompleteEv { rewriteHost := true } false (fun i => i == 0) (fun _ => 1) true exTable exReq {}).st.wraps
       = [b "httpbingo.org"] := by
   decide +kernel
 
